@@ -546,6 +546,10 @@ class DirImport(CStruct):
             entry.firstthunks = struct_array(self, None,
                                              None,
                                              Rva)
+            # The slot reserved below for the null thunk must be written too:
+            # the target area is not always zero filled
+            entry.originalfirstthunks.end = b"\x00" * rva_size
+            entry.firstthunks.end = b"\x00" * rva_size
 
             impbynames = []
             for new_function in new_functions:
